@@ -194,11 +194,13 @@ class Sc:
         self.post = post  # post(ctx, result_object, name): op specific extra obligations
         self.ch = ch  # ChargeInfo of the result if it differs from the operands'
         self.extra_live = list(extra_live)  # further live objects (legs, pipes) that must not be mutated
+        self.results = None  # results(result object) -> list of all returned Arrays (default: [get(result)])
 
 
 class OpSpec:
 
-    def __init__(self, name, build, variants, inplace, owns, chain, tiers, labels_rule, qtotal_rule, quick):
+    def __init__(self, name, build, variants, inplace, owns, chain, tiers, labels_rule, qtotal_rule, quick, props=('C01', 'C02', 'C03')):
+        self.props = tuple(props)
         self.name = name
         self.build = build
         self.variants = tuple(variants)
@@ -214,10 +216,10 @@ class OpSpec:
 OPS = {}
 
 
-def op(name, variants=('d', ), inplace=False, owns=True, chain=False, tiers='AB', labels='', qtotal='', quick=None):
+def op(name, variants=('d', ), inplace=False, owns=True, chain=False, tiers='AB', labels='', qtotal='', quick=None, props=('C01', 'C02', 'C03')):
 
     def deco(f):
-        OPS[name] = OpSpec(name, f, variants, inplace, owns, chain, tiers, labels, qtotal, quick)
+        OPS[name] = OpSpec(name, f, variants, inplace, owns, chain, tiers, labels, qtotal, quick, props)
         return f
 
     return deco
@@ -313,7 +315,7 @@ class World:
             return Bd.qvec(self.ctx, self.ns + name + 'qt', self.ch)
         return self.draw_qtotal(name, legs)
 
-    def tensor(self, name, legs, labels=None, qtotal='sym', subset=None, prestate=None):
+    def tensor(self, name, legs, labels=None, qtotal='sym', subset=None, prestate=None, concrete=False):
         ctx, N, ch = self.ctx, self.npc, self.ch
         name = self.ns + name
         subset = subset or self.subset
@@ -321,7 +323,7 @@ class World:
             qt = None if qtotal == 'zero' else self.qtotal(name[len(self.ns):], legs)
         else:
             qt = None if qtotal is None else np.array(qtotal)  # own copy
-        dt = object if ctx.symbolic else (complex if self.cplx else float)
+        dt = object if (ctx.symbolic and not concrete) else (complex if self.cplx else float)
         A = N.Array(legs, dtype=dt, qtotal=qt, labels=labels)
         rng = self.rng('st:' + name)
         data, qd, dropped = [], [], []
@@ -340,12 +342,12 @@ class World:
             if subset == 'draw' and drop:
                 dropped.append((qi, tag, shape))
                 continue
-            data.append(ctx.array(tag, shape, cplx=self.cplx))
+            data.append(self._entries(tag, shape, concrete))
             qd.append(qi)
         if subset == 'draw' and not any(t.size for t in data) and dropped:
             # a drawn subset never leaves the tensor without entries (tensors without blocks have their own cases)
             qi, tag, shape = next((d for d in dropped if 0 not in d[2]), dropped[0])
-            data.append(ctx.array(tag, shape, cplx=self.cplx))
+            data.append(self._entries(tag, shape, concrete))
             qd.append(qi)
         n = len(qd)
         qd = np.array(qd, dtype=np.intp).reshape(n, A.rank)
@@ -373,6 +375,15 @@ class World:
         else:
             ctx.note('tensors_without_blocks')
         return A
+
+    def _entries(self, tag, shape, concrete):
+        """symbolic entries, or (operations behind LAPACK: only charges / structure are symbolic) numbers drawn from the tag"""
+        if not concrete:
+            return self.ctx.array(tag, shape, cplx=self.cplx)
+        rng = self.rng('val:' + tag)
+        n = int(np.prod(shape))
+        vals = [rng.randint(-40, 40) / 8. + (1j * rng.randint(-40, 40) / 8. if self.cplx else 0.) for _ in range(n)]
+        return np.array(vals, dtype=complex if self.cplx else float).reshape(shape)
 
     def like(self, a, name, labels='same', perm=None):
         """fresh tensor with the legs and qtotal of `a` (legs optionally permuted)"""
@@ -2323,3 +2334,56 @@ def write_through(ctx, W, R, tag, check, writes=WRITES, groups=4):
             continue
         ctx.note('writes_through_result')
         check(f'{tag}, then {w} on the result')
+
+
+# =============================================================================================
+# factorisations: their values are C05's subject (LAPACK contract stubs); here only what C02 / C03 state about every
+# operation: invariants and flags of the returned tensors, qtotal rule, operands and shared legs untouched.  Charges are
+# symbolic (Tier A), the entries are numbers so that LAPACK runs for real.
+@op('qr', variants=('reduced', 'complete', 'qtotal_Q', 'complete_qconj', 'lq_qtotal'), quick=('qtotal_Q', 'complete_qconj'), props=('C02', 'C03'),
+    labels='(a0, inner_Q), (inner_R, a1)', qtotal='Q: qtotal_Q (default 0); R: a.qtotal - Q.qtotal')
+def b_qr(W, v):
+    N = W.npc
+    ch = W.ch
+    a = W.tensor('a', [W.leg(0), W.leg(1)], labels=['a', 'b'], concrete=True)
+    kw = dict(inner_labels=['q', 'r'])
+    qQ = ch.make_valid(None)
+    if v in ('qtotal_Q', 'lq_qtotal'):
+        qQ = Bd.qvec(W.ctx, W.ns + 'qQ', ch) if W.tier == 'A' else ch.make_valid(np.array(W.draw_charges('qQ', 1)[0]))
+        kw['qtotal_Q'] = np.array(qQ)
+    if v in ('complete', 'complete_qconj'):
+        kw['mode'] = 'complete'
+    if v == 'complete_qconj':
+        kw['inner_qconj'] = -a.legs[0].qconj
+    if v == 'lq_qtotal':
+        sc = Sc([a], lambda a: N.lq(a, **kw), None)
+        sc.results = lambda res: [res[0], res[1]]
+        sc.get = lambda res: res[1]
+        sc.qtotals = lambda res: [(res[1], qQ), (res[0], a.qtotal - qQ)]
+        return sc
+    sc = Sc([a], lambda a: N.qr(a, **kw), None)
+    sc.results = lambda res: [res[0], res[1]]
+    sc.get = lambda res: res[0]
+    sc.qtotals = lambda res: [(res[0], qQ), (res[1], a.qtotal - qQ)]
+    return sc
+
+
+@op('svd', variants=('default', 'qtotal_LR', 'inner_qconj'), quick=('qtotal_LR', ), props=('C02', 'C03'),
+    labels='(a0, inner), (inner, a1)', qtotal='U, VH: qtotal_LR (default 0, a.qtotal)')
+def b_svd(W, v):
+    N = W.npc
+    ch = W.ch
+    a = W.tensor('a', [W.leg(0), W.leg(1)], labels=['a', 'b'], concrete=True)
+    kw = dict(inner_labels=['u', 'v'])
+    qL = ch.make_valid(None)  # documented default: [None, None] is equivalent to [None, a.qtotal], i.e. U.qtotal = 0
+    if v == 'qtotal_LR':
+        qL = Bd.qvec(W.ctx, W.ns + 'qL', ch) if W.tier == 'A' else ch.make_valid(np.array(W.draw_charges('qL', 1)[0]))
+        kw['qtotal_LR'] = [np.array(qL), ch.make_valid(np.array(a.qtotal - qL))]
+    if v == 'inner_qconj':
+        kw['inner_qconj'] = -1
+    # documented: RuntimeError('SVD found no singular values') for a tensor without entries
+    sc = Sc([a], lambda a: N.svd(a, **kw), None, raises=(RuntimeError, not any(t.size for t in a._data)))
+    sc.results = lambda res: [res[0], res[2]]
+    sc.get = lambda res: res[0]
+    sc.qtotals = lambda res: [(res[0], qL), (res[2], a.qtotal - qL)]
+    return sc
